@@ -22,6 +22,7 @@ def run(ctx, crate):
     rule_units(ctx, crate)
     rule_pad_structure(ctx, crate)
     rule_wide_msg(ctx, crate)
+    rule_width_always_applied(ctx, crate)
 
 
 def rule_units(ctx, crate, rule="R-UNITS"):
@@ -260,3 +261,56 @@ def rule_wide_msg(ctx, crate, rule="R-WIDE-MSG"):
             ctx.check(ok, rule, "placeholder-fields-forwarded", fs.name, "%s:%d" % (fs.file, s.get("line", 0)),
                       "width, alignment and truncate flag of the placeholder are the ones the template specified",
                       "the padded field does not use the placeholder's own width/alignment/truncate", cfg)
+
+
+def rule_width_always_applied(ctx, crate, rule="R-WIDTH-ALWAYS-APPLIED"):
+    """A placeholder that carries a width is always rendered through the padding/truncating field, whatever its content
+    (including empty content): within an iteration of format_state's loop every path from the placeholder's value being
+    produced to the next part passes the test on the placeholder's `width`, and the Some edge always builds and writes a
+    PaddedStringDisplay."""
+    cfg = crate.config
+    from .c11 import key_arms
+    b = K.find_one(ctx, crate, rule, r"style::ProgressStyle::format_state")
+    if not b:
+        return
+    heads = [c for c in b.calls(r"std::iter::Iterator::next") if b.slice_args(c, [0]).has_field("parts")]
+    if not heads:
+        ctx.lost(rule, cfg, "loop over template parts not found")
+        return
+    H = heads[0].bb
+    wsw = []
+    for sb, t, pl, d in K.discr_switches(b):
+        if K.head_of_type(pl.get("ty", "")) == "std::option::Option" and b.slice(pl, at=sb).has_field("width", "style::TemplatePart"):
+            ev = K.edge_variants(crate, t, "std::option::Option")
+            some_t = [tb for tb, vs in ev.items() if vs == {"Some"}]
+            if some_t and b.in_loop(sb):
+                wsw.append((sb, some_t[0]))
+    # the per_sec arm tests width for its own precision: keep only switches that dominate a PaddedStringDisplay construction
+    cons = [i for (cb, i, j, s) in K.constructions(crate, PSD, bodies=[b])]
+    wsw = [(sb, st) for sb, st in wsw if any(b.edge_dominates((sb, st), i) for i in cons)]
+    ctx.check(bool(wsw), rule, "width-test-exists", b.name, K.fn_loc(b), "the placeholder's width is tested and the Some edge builds a PaddedStringDisplay",
+              "format_state no longer routes width placeholders through PaddedStringDisplay", cfg)
+    if not wsw:
+        return
+    arms = key_arms(b)
+    n = 0
+    sw_bbs = [sb for sb, st in wsw]
+    for k, (c, reg) in sorted(arms.items()):
+        # from the arm's entry, every path back to the loop header passes a width test
+        tgt = b.term(c.target)["otherwise"] if c.target is not None else None
+        if tgt is None:
+            continue
+        n += 1
+        ok = H not in b.reach([tgt], avoid=sw_bbs) or tgt in sw_bbs
+        ctx.check(ok, rule, "arm:%s" % k, b.name, c.loc(), "after `%s` is rendered the width test is reached on every path" % k,
+                  "`%s` can skip the width/padding step (e.g. for empty content): the field is not W columns wide" % k, cfg)
+    # custom keys too
+    for w in [x for x in b.calls() if x.callee.get("trait") == "style::ProgressTracker" and K.meth(x.generic) == "write"]:
+        n += 1
+        ok = H not in b.reach(b.succ(w.bb), avoid=sw_bbs)
+        ctx.check(ok, rule, "custom-key", b.name, w.loc(), "custom keys are padded like built-in ones", "custom keys can skip the width/padding step", cfg)
+    for sb, st in wsw:
+        ok = b.must_pass([st], cons, to=[H])
+        ctx.check(ok, rule, "some-builds-field", b.name, "%s:%d" % (b.file, b.term(sb).get("line", 0)), "with a width, a PaddedStringDisplay is built on every path",
+                  "with a width, some path does not build the padded field", cfg)
+    ctx.floor(rule, n, 28, cfg, "placeholder arms checked for the width step")
